@@ -257,19 +257,33 @@ def explore_shape(shape, tier="quick", seed=0, budget_s=60, validate=0):
 
 
 def replay(rec):
-    """native replay of a stored violation"""
-    from symx.engine import Explorer
+    import sys
 
-    shape, assignment = rec["shape"], rec["assignment"]
-    ex = Explorer(forced=assignment)
-    for name, v in assignment.items():
-        ex.declare(z3.Bool(name) if isinstance(v, bool) else z3.Int(name))
-    W = make_world(ex, shape, True)
-    st, c = ex.explore(make_run(W, shape), max_paths=1)
-    print("world:", W.describe(assignment))
-    print("shape:", shape)
-    print("native run:", st["samples"])
-    return bool(c)
+    return runner.replay_record(sys.modules[__name__], rec)
+
+
+def _native_levels():
+    """f(x:A), f(x:B), f(x:A2, y:int) with A2(A), C(A2,B): f(C()) must raise Ambiguous; returns True iff it does not"""
+    from ovld import Ovld
+
+    class A: pass
+    class B: pass
+    class A2(A): pass
+    class C(A2, B): pass
+    ov = Ovld()
+    def fa(x: A): return "A"
+    def fb(x: B): return "B"
+    def fc(x: A2, y: int): return "A2"
+    for fn in (fa, fb, fc):
+        ov.register(fn)
+    try:
+        ov.dispatch(C())
+    except TypeError as e:
+        return not str(e).startswith("Ambiguous")
+    return True
+
+
+NATIVE_WITNESSES = {"c02_levels": _native_levels}
 
 
 def main(tier, seed):
@@ -294,5 +308,5 @@ def main(tier, seed):
                    "different signatures (extra keyword/optional parameter): the statement does not rank them"],
         assumptions=["ovld consults user classes only through issubclass/isinstance (validated by native replays)",
                      "CPython set iteration order as it happens (order dependence is C06's subject)"],
-        shapes_total=total, shapes_sampled=sampled,
+        shapes_total=total, shapes_sampled=sampled, mod=__import__("sys").modules[__name__],
     )
